@@ -864,6 +864,24 @@ pub fn check_c17(r: &Runner, ctx: &mut Ctx, l: &mut Local, rec: &CaseRec) -> Res
     }
     let nu = norm(&u);
     let m = written_slots(&u).len();
+    // "header lines accepted / completed" judged independently of the parser: the reference
+    // model's count for the unlimited-capacity run (a parser that takes a slot before the line
+    // is complete, or drops an accepted line, does so in both of its own runs)
+    if rec.buf.len() <= 20_000 {
+        let mm = crate::model::model(rec.kind(), &rec.buf, if rec.entry.takes_cfg() { rec.cfg } else { 0 }, ucap);
+        let agree = match (&nu.st, &mm.verdict) {
+            (St::Complete(a), crate::model::Verdict::Complete(b)) => a == b,
+            (St::Partial, crate::model::Verdict::Partial) => true,
+            _ => false,
+        };
+        if agree && mm.headers.len() != m {
+            return Err(viol(
+                "C17/slots-written-differs-from-lines-complete",
+                format!("with ample capacity ({}) the parser gives {} and has written {} slots, but {} header lines are complete at that point", ucap, nu.st.show(), m, mm.headers.len()),
+                rec,
+            ));
+        }
+    }
     let hdr_at_end = rec.aux.first().copied().unwrap_or(1) != 0;
     let o = ctx.run(&spec(rec.cap, hdr_at_end));
     if let Some(v) = panic_viol("C17", &o, rec) {
@@ -1591,6 +1609,47 @@ pub fn run_c16(r: &Runner) {
 }
 
 pub fn run_c17(r: &Runner) {
+    // capacity law at every cut: k lines × capacity 0..=k+1 × 6 tails × option sets × every
+    // prefix (with folding a line only completes once the next byte is known not to continue
+    // it: the cut right after a line end is where "completed first" is decided)
+    {
+        const TAILS: [&[u8]; 6] = [b"\r\n", b"", b"bad line\r\n\r\n", b"\x00", b" cont\r\n\r\n", b"Z: z\r\n\r\n"];
+        const LINES: [&[u8]; 5] = [b"A: b\r\n", b"Cc:dd\n", b"E:\r\n", b"Ff: g h \r\n", b"I: j\r\n"];
+        const CFGS: [u8; 6] = [0, C_MULTILINE, C_IGNORE_RESP | C_IGNORE_REQ, C_MULTILINE | C_IGNORE_RESP, C_SPACE_BEFORE_FIRST | C_MULTILINE, 0x7f];
+        let mut cases: Vec<(usize, usize, usize, u8, Entry)> = vec![];
+        for k in 0..=4usize {
+            for cap in 0..=k + 1 {
+                for t in 0..TAILS.len() {
+                    for &cfg in CFGS.iter() {
+                        for &e in [Entry::ReqCfg, Entry::RespCfg, Entry::ReqCfgUninit, Entry::RespCfgUninit, Entry::Headers].iter() {
+                            if e == Entry::Headers && cfg != 0 {
+                                continue;
+                            }
+                            cases.push((k, cap, t, cfg, e));
+                        }
+                    }
+                }
+            }
+        }
+        let maxlen = 4 * 10 + 32u64;
+        r.par_enum("capacity law at every cut: k=0..=4 lines × capacity 0..=k+1 × 6 tails × 6 option sets × 5 entry points × every prefix of the header block", cases.len() as u64 * (maxlen + 1), |ctx, l, idx| {
+            let (k, cap, t, cfg, entry) = cases[(idx / (maxlen + 1)) as usize];
+            let cut = (idx % (maxlen + 1)) as usize;
+            let mut block = vec![];
+            for i in 0..k {
+                block.extend_from_slice(LINES[i % LINES.len()]);
+            }
+            block.extend_from_slice(TAILS[t]);
+            let full = with_start_line(entry.kind(), &block);
+            let start = full.len() - block.len();
+            if start + cut > full.len() {
+                return Ok(());
+            }
+            let rec = CaseRec::new("storage", entry, cfg, cap, full[..start + cut].to_vec());
+            check_c17(r, ctx, l, &rec)
+        });
+    }
+    dict_dup_phase(r, "storage", &msg_entry, check_c17);
     families_phase(r, "storage", &msg_entry, check_c17);
     repeat_boundary_phase(r, "storage", &msg_entry, check_c17);
     // many header lines: k in a set around 256 and beyond, capacities around k and well above
